@@ -1,11 +1,115 @@
-import MorfuseModel.Container.Model
+import MorfuseModel.Container.Refine
 /-!
 # C18 — core containers and strings behave like their abstract models
-(placeholder while the models are being tied to the code; theorems follow)
+
+Property theorems only (helpers live in `Container/*`, `HashSet/*`, `Str/*`).  Every statement is
+about **all** operation histories (induction over the operation list), for an arbitrary element /
+key / value type and, for the hash table, an arbitrary hash function.
+
+## Part 1 — `con::Container<Type>` (include/morfuse/Container/Container.h)
+
+`World α` is two containers (copy / move need a second one); `step` is one member-function call,
+`Except.error` = the C++ statement has undefined behaviour or breaks the object-lifetime discipline.
+`abs w` is the pair of element lists, `Spec.step` the obvious list operation.
 -/
 namespace Morfuse.Container
+variable {α : Type} [DecidableEq α] [Inhabited α]
 
-/-- smoke: the empty world is a fixed point of `free` -/
-theorem C18_placeholder : (step ({} : World Nat) (.free false)).isOk = true := by decide
+/-- **Refinement.**  Whatever history of member-function calls is executed from two empty
+    containers, every return value and the final contents are exactly those of the abstract
+    sequences under the obvious list operations (`AddObject` = append, `RemoveObjectAt` = erase at,
+    `InsertObjectAt` = insert at, `SetNumObjects` = truncate / pad with `Type()`, `Shrink`/`Resize(n>0)`
+    = identity, copy = copy, move = move-and-empty, lookups = first position, …). -/
+theorem C18_container_refinement {ops : List (Op α)} {w : World α} {rs : List (Ret α)}
+    (h : runR ({} : World α) ops = .ok (w, rs)) :
+    Spec.runR ({} : AW α) ops = some (abs w, rs) := by
+  have := (runR_refines ops winv_init h).2
+  rwa [abs_init] at this
+
+/-- One more step from any reachable state is again the list operation (growth, shrinking and
+    copying preserve contents; removal removes only the named element: read off `Spec.step`). -/
+theorem C18_container_step_refinement {w w' : World α} {op : Op α} {r : Ret α} (hr : Reachable w)
+    (h : step w op = .ok (w', r)) : Spec.step (abs w) op = some (abs w', r) := by
+  rcases step_refines (reachable_winv hr) op with ⟨_, e, he⟩ | ⟨_, w1, r1, h1, _, hs⟩
+  · rw [he] at h; cases h
+  · rw [h1] at h; cases h; exact hs
+
+/-- **Ledger.**  In every reachable state: constructions − destructions = live element objects =
+    `NumObjects()` of the two containers; the live objects are exactly the slots below
+    `numobjects` (every slot is constructed once before it is used and destroyed once: a second
+    construction, or a use / destruction of raw storage, is a fault of the model and
+    `C18_container_faults_exact` shows none is reachable). -/
+theorem C18_container_ledger_balanced {w : World α} (hr : Reachable w) :
+    w.a.led.ctor + w.b.led.ctor = w.a.led.dtor + w.b.led.dtor + w.a.num + w.b.num ∧
+    (contents w.a).length = w.a.num ∧ (contents w.b).length = w.b.num ∧
+    (∀ b, w.a.objlist = some b → b = (contents w.a).map some ++ raw (w.a.max - w.a.num)) ∧
+    (∀ b, w.b.objlist = some b → b = (contents w.b).map some ++ raw (w.b.max - w.b.num)) := by
+  obtain ⟨f, hf⟩ := reachable_winv hr
+  have ha := hf.1 false
+  have hb := hf.1 true
+  simp only [World.get, Bool.false_eq_true, if_false, if_true] at ha hb
+  have h2 := hf.2
+  rw [ha.contents, hb.contents, ha.num, hb.num]
+  refine ⟨by omega, rfl, rfl, ?_, ?_⟩
+  · intro b hbuf
+    rcases ha with ⟨l, e, _⟩ | ⟨m, l, e, _, _⟩
+    · rw [e] at hbuf; simp [mk0] at hbuf
+    · rw [e] at hbuf ⊢; simp only [mk, Option.some.injEq] at hbuf ⊢; subst hbuf; rfl
+  · intro b hbuf
+    rcases hb with ⟨l, e, _⟩ | ⟨m, l, e, _, _⟩
+    · rw [e] at hbuf; simp [mk0] at hbuf
+    · rw [e] at hbuf ⊢; simp only [mk, Option.some.injEq] at hbuf ⊢; subst hbuf; rfl
+
+/-- **Capacity.**  `numobjects ≤ maxobjects`, the allocation has exactly `maxobjects` slots, and a
+    null `objlist` goes with `numobjects = maxobjects = 0`. -/
+theorem C18_container_capacity {w : World α} (hr : Reachable w) (c : Bool) :
+    (w.get c).num ≤ (w.get c).max ∧
+    (∀ b, (w.get c).objlist = some b → b.length = (w.get c).max ∧ 0 < (w.get c).max) ∧
+    ((w.get c).objlist = none → (w.get c).num = 0 ∧ (w.get c).max = 0) := by
+  obtain ⟨f, hf⟩ := reachable_winv hr
+  have h := hf.1 c
+  refine ⟨h.le, ?_, ?_⟩
+  · intro b hb
+    rcases h with ⟨l, e, _⟩ | ⟨m, l, e, hle, hpos⟩
+    · rw [e] at hb; simp [mk0] at hb
+    · rw [e] at hb ⊢
+      simp only [mk, Option.some.injEq] at hb ⊢
+      subst hb
+      exact ⟨by rw [length_bufOf]; omega, hpos⟩
+  · intro hb
+    rcases h with ⟨l, e, _⟩ | ⟨m, l, e, _, _⟩
+    · rw [e]; simp [mk0]
+    · rw [e] at hb; simp [mk] at hb
+
+/-- **Faults are exactly the stated guards.**  In a reachable state an operation faults iff it is
+    `ObjectAt / SetObjectAt / operator[]` with `index = 0 ∨ index > numobjects` (the C++ has only an
+    `assert`, compiled out under `NDEBUG`), `AddObjectAt(0, _)` (idem, through `SetObjectAt`), or
+    `AddObject(ObjectAt(i))` with a bad `i` or with `numobjects ≥ maxobjects` (the argument refers
+    into the block that `Resize` destroys and frees first).  In particular no history ever
+    constructs over a live object, uses or destroys raw storage, or touches memory outside the
+    allocation. -/
+theorem C18_container_faults_exact {w : World α} (hr : Reachable w) (op : Op α) :
+    (∃ e, step w op = .error e) ↔ UB w op := by
+  rcases step_refines (reachable_winv hr) op with ⟨hu, he⟩ | ⟨hu, w1, r, h1, _, _⟩
+  · exact ⟨fun _ => hu, fun _ => he⟩
+  · refine ⟨?_, fun h => absurd h hu⟩
+    rintro ⟨e, he⟩
+    rw [h1] at he; cases he
+
+/-- non-vacuity: a history with growth, insertion in the middle, removal, truncation, copy and move
+    runs without fault and ends in the expected lists -/
+example :
+    (match runR ({} : World Nat) [.add false 5, .add false 6, .add false 7, .insertAt false 2 9, .removeAt false 1,
+        .setNum false 2, .copyAssign true false, .addAt true 4 8, .shrink true, .moveAssign false true] with
+     | .ok (w, _) => (contents w.a, contents w.b, w.a.led.ctor + w.b.led.ctor, w.a.led.dtor + w.b.led.dtor)
+     | .error _ => ([], [], 0, 0))
+    = ([9, 6, 0, 8], [], 14, 10) := by decide
+
+/-- non-vacuity of the fault theorem: the three kinds of guard are reachable -/
+example : (step ({} : World Nat) (.objectAt false 1)).isOk = false ∧
+    (step ({} : World Nat) (.addAt false 0 1)).isOk = false ∧
+    ((do let (w, _) ← step ({} : World Nat) (.add false 1)
+         let (w, _) ← step w (.add false 2)
+         step w (.addDup false 1)) : R _).isOk = false := by decide
 
 end Morfuse.Container
